@@ -142,8 +142,8 @@ def obf_keyword(word, rng, css=True):
 # URI values
 
 def uri_payload(rng, css=False, schemes_safe=None, schemes_evil=None):
-    """a URI.  The `+ - .` obfuscation is only applied to schemes that are not accepted ones, so
-    that the known-finding class `h-t-t-p:` (C06-scheme-punct) stays outside the generated inputs."""
+    """a URI; schemes (accepted ones included) are also obfuscated with `+ - .` (the class of the
+    repaired finding C06-scheme-punct) and with line breaks before the colon"""
     safe = schemes_safe or SAFE_SCHEMES_V
     evil = schemes_evil or EVIL_SCHEMES_V
     r = rng.random()
@@ -155,10 +155,13 @@ def uri_payload(rng, css=False, schemes_safe=None, schemes_evil=None):
     if r < 0.40:
         sch = rng.choice(safe)
         word = obf_keyword(sch, rng, css) if rng.random() < 0.6 else sch
+        if rng.random() < 0.12:
+            i = rng.randrange(0, len(word) + 1)
+            word = word[:i] + rng.choice(['-', '+', '.', '\n', '&#10;', '&NewLine;', '\r\n']) + word[i:]
     else:
         sch = rng.choice(evil)
         word = obf_keyword(sch, rng, css)
-        if rng.random() < 0.15 and sch not in MAYBE_SAFE_V:
+        if rng.random() < 0.15:
             i = rng.randrange(0, len(word) + 1)
             word = word[:i] + rng.choice(['-', '+', '.', '/', '?', '_']) + word[i:]
     pre = ''
@@ -195,6 +198,11 @@ def css_value(rng):
     if r < 0.90:
         ex = obf_keyword('expression', rng)
         return ex + rng.choice(['', ' ', '/**/']) + '(' + rng.choice(['alert(1)', 'x', '']) + rng.choice([')', ''])
+    if r < 0.93:
+        # a CSS escape that produces an ampersand: the decoded text holds a character reference
+        # (class of the repaired finding C06-css-escape-reference)
+        return rng.choice(['url(\\26 #106avascript:alert(1))', 'url(\\26 #106;avascript:x)', 'url(\\000026#x6a\\3b avascript:x)',
+                           'url(\\26 amp\\3b #106\\3b avascript:x)', '\\26 lt\\3b', 'url(\\26#106 avascript:x)'])
     return rng.choice(['\\110000', '\\d800', '\\0', '\\dfff ', '\\ffffff', '\\', '\\\n', '\\\r\n', '\\;', '\\(',
                        '\\:', '\\"', '\\10ffff', '\\00000041', '\\1234567', '\\g', '\\ ', '\\\\', '\\\\75 rl(x:y)'])
 
@@ -416,7 +424,8 @@ def raw_node(rng, depth):
     if r < 0.88:
         return ('leaf', ('C', rng.choice([' c ', '[if IE]><script>alert(1)</script><![endif]', '', '-->', 'x--y'])))
     if r < 0.92:
-        return ('leaf', ('PI', rng.choice(['php', 'xml', 'x']), rng.choice(['echo 1', '', 'a="b"'])))
+        return ('leaf', ('PI', rng.choice(['php', 'xml', 'x', 'x>']),
+                         rng.choice(['echo 1', '', 'a="b"', 'a><script>alert(1)</script', '>', 'x ?><img src=x onerror=alert(1)><?y '])))
     if r < 0.94:
         return ('leaf', ('DT', 'html', rng.choice([None, '-//W3C//DTD XHTML 1.0 Strict//EN']), rng.choice([None, 'x.dtd'])))
     if r < 0.96:
